@@ -556,7 +556,7 @@ deriving Repr, Inhabited
 def CoSt.resume (s : State) : CoSt → State × CoSt × CoOut
   | .batch b => let (s1, b1, o) := batchResume (1000000) s b; (s1, match o with | .yielded => .batch b1 | _ => .finished, o)
   | .rule r => let (s1, r1, o) := ruleResume s r; (s1, match o with | .yielded => .rule r1 | _ => .finished, o)
-  | .pages p => let (p1, o) := pagesResume (s.trie.size + p.prefixes.length + 2) s p; (s, match o with | .yielded => .pages p1 | _ => .finished, o)
+  | .pages p => let (p1, o) := pagesResume ((s.trie.size + 1) * (p.prefixes.length + 1)) s p; (s, match o with | .yielded => .pages p1 | _ => .finished, o)
   | .net n => let (n1, o) := netResume (s.trie.size + s.links.size + n.pointers.length + 3) s n; (s, match o with | .yielded => .net n1 | _ => .finished, o)
   | .query q => let (q1, o) := q.resume s; (s, match o with | .yielded => .query q1 | _ => .finished, o)
   | .finished => (s, .finished, .failed (.other "StopIteration"))
